@@ -371,7 +371,7 @@ func swProperty(t *testing.T, curveNames, ops []string, compiledPct, quick, thor
 	rec := ev.Get(ID)
 	rec.SetRule(rule)
 	g := genSW(curveNames, ops, compiledPct)
-	rec.Check(t, "sw", ev.N(quick, thorough), func(rt *rapid.T) {
+	checkSerial(rec, t, "sw", ev.N(quick, thorough), func(rt *rapid.T) {
 		c := g.Draw(rt, "case")
 		if sig := excludedSW(&c); sig != "" {
 			rec.Discarded("sw:excluded shape of open finding " + sig)
@@ -413,4 +413,22 @@ func TestOtherCurves(t *testing.T) {
 		names = append(names, "bw6761")
 	}
 	swProperty(t, names, append(append([]string{}, mulOps...), cheapOps...), 0, 45, 3000)
+}
+
+// checkSerial is ev.Recorder.Check made safe for t.Parallel tests: rapid reads
+// its (global) -rapid.checks / -rapid.seed flags at the start of rapid.Check,
+// before the first invocation of the property, so the flag update and that
+// read are serialised by a mutex released on the first property invocation.
+// Case count and seed of every test are then a pure function of VERIF_SEED.
+var rapidFlagsMu sync.Mutex
+
+func checkSerial(rec *ev.Recorder, t *testing.T, kind string, n int, prop func(rt *rapid.T)) {
+	rapidFlagsMu.Lock()
+	var once sync.Once
+	unlock := func() { once.Do(rapidFlagsMu.Unlock) }
+	defer unlock()
+	rec.Check(t, kind, n, func(rt *rapid.T) {
+		unlock()
+		prop(rt)
+	})
 }
